@@ -179,6 +179,7 @@ type Gen struct {
 	wideArr     int // when > 0 the next Array() gets this many items (once)
 	calm        bool
 	baseCalm    bool
+	forceKind   *Kind // set while a scalar of one given kind is wanted
 }
 
 type EnumInfo struct {
@@ -363,6 +364,9 @@ func (g *Gen) Scalar(inObject bool) *Node {
 	g.nodes++
 	rng := g.Rng
 	kind := pick(rng, []Kind{KString, KString, KInt, KInt, KFloat, KFloat, KBool, KNull})
+	if g.forceKind != nil {
+		kind = *g.forceKind
+	}
 	n := &Node{Kind: kind}
 	shape := rng.IntN(12)
 	if !g.ValueFocus && rng.IntN(3) == 0 {
@@ -674,18 +678,44 @@ func (g *Gen) Object(depth int, inObject bool) *Node {
 		n.Children = append(n.Children, c)
 	}
 	// a key shortcut member: the key type must be a string type
+	shortcuts := 0
 	if !g.NoRefs && rng.IntN(6) == 0 {
 		if ts := g.typesOfKind(KString); len(ts) > 0 {
-			c := g.Scalar(false)
-			c.KRefKey(pick(rng, ts).Name)
-			// anywhere among the members, not only last
-			at := rng.IntN(len(n.Children) + 1)
-			n.Children = append(n.Children, nil)
-			copy(n.Children[at+1:], n.Children[at:])
-			n.Children[at] = c
+			// one key shortcut, or several (of different key types); later ones
+			// often hold a value of the same kind as the first, with rules of their own
+			want := 1
+			if rng.IntN(2) == 0 {
+				want = 2 + rng.IntN(2)
+			}
+			var first *Kind
+			for _, ti := range rng.Perm(len(ts)) {
+				if shortcuts == want {
+					break
+				}
+				if first != nil && rng.IntN(2) == 0 {
+					g.forceKind = first
+				}
+				c := g.Scalar(false)
+				g.forceKind = nil
+				if first == nil {
+					k := c.Kind
+					first = &k
+				}
+				c.KRefKey(ts[ti].Name)
+				// anywhere among the members, not only last
+				at := rng.IntN(len(n.Children) + 1)
+				n.Children = append(n.Children, nil)
+				copy(n.Children[at+1:], n.Children[at:])
+				n.Children[at] = c
+				shortcuts++
+			}
 		}
 	}
-	switch rng.IntN(8) {
+	ap := rng.IntN(8)
+	if shortcuts > 0 && rng.IntN(2) == 0 {
+		ap = 0 // the additional-properties rule next to key shortcuts
+	}
+	switch ap {
 	case 0:
 		v := pick(rng, []string{"true", "false", `"string"`, `"integer"`, `"any"`, `"null"`, `"float"`, `"boolean"`, `"array"`, `"object"`,
 			`"decimal"`, `"enum"`, `"mixed"`, `"email"`, `"uri"`, `"uuid"`, `"date"`, `"datetime"`})
@@ -766,9 +796,14 @@ func GenProject(rng *rand.Rand, valueFocus, exotic bool) *Project {
 	bigSize := pick(rng, []int{9, 15, 16, 17, 31, 33, 63, 65, 127, 129, 255, 257})
 	bigCalm := big >= 0 && rng.IntN(4) != 0 // most big projects keep their scalars plain, so that they are usually accepted
 	g.calm, g.baseCalm = bigCalm, bigCalm
+	// how the names of this project are spelled (every legal character class: hyphens, underscores, capitals, leading digits)
+	style := 0
+	if rng.IntN(3) == 0 {
+		style = 1 + rng.IntN(NameStyles-1)
+	}
 	// enums
 	for i, n := 0, rng.IntN(3); i < n; i++ {
-		name := fmt.Sprintf("@e%d", i)
+		name := StyledName(style, "e", i)
 		cnt := 1 + rng.IntN(4)
 		if big == 4 && i == 0 {
 			cnt = bigSize
@@ -791,7 +826,7 @@ func GenProject(rng *rand.Rand, valueFocus, exotic bool) *Project {
 		nt = pick(rng, []int{9, 10, 11, 17, 33})
 	}
 	for i := 0; i < nt; i++ {
-		name := fmt.Sprintf("@t%d", i)
+		name := StyledName(style, "t", i)
 		g.nodes = 0
 		var node *Node
 		switch r := rng.IntN(10); {
@@ -869,4 +904,26 @@ func dropRule(n *Node, name string) {
 	if len(n.Rules) == 0 {
 		n.HasRules = false
 	}
+}
+
+// NameStyles is the number of spellings StyledName knows.
+const NameStyles = 6
+
+// StyledName spells the i-th name of a family ("t" types, "e" enum rules) in one
+// of the legal ways: @t0, @pet-t0, @T_0, @0t, @t0-x, @-t_0-.
+func StyledName(style int, family string, i int) string {
+	n := strconv.Itoa(i)
+	switch style % NameStyles {
+	case 1:
+		return "@pet-" + family + n
+	case 2:
+		return "@" + strings.ToUpper(family) + "_" + n
+	case 3:
+		return "@" + n + family
+	case 4:
+		return "@" + family + n + "-x"
+	case 5:
+		return "@-" + family + "_" + n + "-"
+	}
+	return "@" + family + n
 }
